@@ -756,6 +756,10 @@ def run_C11(res, tier, seed, t_end, bad):
     Bl.run_tx_then_block(res, seed)
     if res.findings:
         return
+    import aio
+    aio.run_async_campaign(res, 'C11', None, 0, seed + 6, t_end, plans=aio.async_tx_scenarios())
+    if res.findings:
+        return
     Bl.run_sched_campaign(res, tier, seed, t_end, budget(tier, 40, 1200), 70)
     if not res.findings:
         Bl.real_threads_smoke(res, tier, seed, t_end)
@@ -771,6 +775,9 @@ def run_C14(res, tier, seed, t_end, bad):
     if res.findings:
         return
     aio.run_async_campaign(res, 'C14', None, 0, seed + 5, t_end, plans=aio.async_spoil_scenarios())
+    if res.findings:
+        return
+    aio.run_async_campaign(res, 'C14', None, 0, seed + 6, t_end, plans=aio.async_tx_scenarios())
     if res.findings:
         return
     # (1) blocking pops on the asyncio front-end: served, timed out, pipelined requests behind them
